@@ -44,7 +44,7 @@ def build_rlib(alloc=True):
     if alloc in _rlib:
         return _rlib[alloc]
     tdir = os.path.join(PROBES, "target" if alloc else "target-noalloc")
-    cmd = ["cargo", "build", "--offline", "--release", "--lib", "--manifest-path", "/repo/Cargo.toml", "--target-dir", tdir]
+    cmd = ["cargo", "build", "--offline", "--release", "--lib", "--manifest-path", os.path.join(os.environ.get("VERIF_REPO", "/repo"), "Cargo.toml"), "--target-dir", tdir]
     if not alloc:
         cmd.append("--no-default-features")
     r = subprocess.run(cmd, stdout=subprocess.PIPE, stderr=subprocess.STDOUT, text=True, env=dict(os.environ, CARGO_NET_OFFLINE="true"))
